@@ -305,7 +305,7 @@ def c01(W, replay=None):
         scen += random_histories(W, 600 if thorough else 60, faults=True)
         scen += parallel_family(W, 200 if thorough else 20)
         scen += [x for x in family(W, "C15", "quick") if "/body/" in x["id"]]        # odd token-endpoint bodies (C01 rule for them)
-        scen += [x for x in timeout_system_scenarios(W)] + decoy_family(W) + after_deny_family(W)
+        scen += [x for x in timeout_system_scenarios(W)] + decoy_family(W) + after_deny_family(W) + replica_family(W)
     return sys_pipeline("C01", W, scen, None, [
         "the ID-token expiry and signature ground truth comes from the simulated identity provider",
         "one check runs at a time between gates (store, token endpoint, key lookup); real parallelism inside a store call is C12's subject",
@@ -430,6 +430,37 @@ def secret_rotation_family(W):
                      {"op": "check", "b": "b1", "f": "f1", "kind": "logout", "cookie": "jar"}, browse("b1", "f1", 1),
                      {"op": "secret", "f": "n1", "value": "K8S-SECRET-v3-Lk1Jh4Gf6"}, {"op": "tick", "d": 61}, app("b1", "f1"), app("b2", "f2")]
             res.append({"id": "secretrotation/%s/%s" % (st, "discovery" if disc else "static"), "cfg": {"filters": [f, g, h]}, "steps": steps, "tags": ["secretRotation"]})
+    return res
+
+
+def replica_family(W):
+    """Two instances of the service (one configuration, one Redis, one provider) behind a load balancer: what one instance
+    stored, refreshed or removed is what the other one sees."""
+    res = []
+    short = {"mode": "honest", "rt": True, "rotate": True, "expiresIn": 60, "idLife": 60}
+    long = {"mode": "honest", "rt": True, "expiresIn": 1000, "idLife": 1000}
+    for tmo in (False, True):
+        f = dict(F1, store="redis")
+        if tmo:
+            f.update(abs=5000, idle=3000)
+        cfg = {"filters": [f], "replicas": 2}
+        tag = "ttl" if tmo else "plain"
+        A = lambda r, ans=short, **kw: dict(app("b1", "f1", cookie="sid:1", url=1, ans=ans), r=r, **kw)
+        tick = lambda d_: {"op": "tick", "d": d_}
+        # refresh on one instance, next request on the other
+        steps = [dict(browse("b1", "f1", 1, ans=short), r=0), tick(59), A(1), tick(2), A(0), tick(1), A(1), tick(61), A(1), tick(1), A(0), tick(61), A(0), A(1)]
+        res.append({"id": "replicas/refresh/%s" % tag, "cfg": cfg, "steps": steps, "tags": ["replicas"]})
+        # logout on one instance, requests on the other before and after
+        steps = [dict(browse("b1", "f1", 1, ans=long), r=0), tick(5), A(1, long), A(0, long),
+                 {"op": "check", "b": "b1", "f": "f1", "kind": "logout", "cookie": "sid:1", "r": 0}, A(1, long), tick(1), A(1, long), A(0, long)]
+        res.append({"id": "replicas/logout/%s" % tag, "cfg": cfg, "steps": steps, "tags": ["replicas"]})
+        # every hop of the login on a different instance
+        steps = [dict(browse("b1", "f1", 2, ans=long), r=-1), A(0, long), A(1, long), tick(1001), A(1, long), A(0, long)]
+        res.append({"id": "replicas/login/%s" % tag, "cfg": cfg, "steps": steps, "tags": ["replicas"]})
+        # a refresh that fails on one instance ends the session for the other too
+        bad = dict(short, id="audForeign")
+        steps = [dict(browse("b1", "f1", 1, ans=short), r=0), tick(30), A(1), tick(31), A(0, bad), A(1), A(0)]
+        res.append({"id": "replicas/failed-refresh/%s" % tag, "cfg": cfg, "steps": steps, "tags": ["replicas"]})
     return res
 
 
@@ -574,7 +605,7 @@ def c09(W, replay=None):
                     if stname == "redis":
                         scen += redis_cmd_variants(sc)
         scen += logout_histories(W, 300 if thorough else 40)
-        scen += discovery_family(W) + dup_chain_family(W) + decoy_family(W) + held_call_family(W)
+        scen += discovery_family(W) + dup_chain_family(W) + decoy_family(W) + held_call_family(W) + replica_family(W)
     return sys_pipeline("C09", W, scen, None, [
         "interleavings are at store-call / token-endpoint-call / key-lookup granularity (the gates of the harness)",
         "a check whose last store access preceded the logout's removal and which is answered later is treated as an answer delayed in the network",
@@ -813,6 +844,7 @@ def c11(W, replay=None):
                     Checks="{1,2,3,4,5}", MaxSid=4, MaxTok=5, TokLife=1, Kinds='{"app"}')
         ms = sample(W, [m for m in ms if any(s.get("ans") == "badToken" for s in m["steps"])], 1000 if W.tier == "thorough" else 80)
         scen += [conv(m, "c11/race/%d" % i, 1, store=("memory", "redis")[i % 2], probes=finish_all(m) + [PROBE_APP]) for i, m in enumerate(ms)]
+        scen += replica_family(W)
         if W.tier == "thorough":
             scen += random_histories(W, 500, long=True)
     return sys_pipeline("C11", W, scen, None, ASSUME_SYS + ["histories are sequential (the property quantifies over histories, not schedules)"], replay=replay)
